@@ -86,7 +86,7 @@ theorem sim_writeHere {w : Walker Node} {a : TW Node} (h : Sim H ps w a) (n : No
     rw [if_pos hroot]
     refine ⟨_, rfl, ?_, Same.rfl' _, rfl⟩
     have hstk : w.stack = [] := h.stackE.mpr (by rw [hn]; simp)
-    refine ⟨h.wf, h.pos, by simp [TW.setNode, hn, upd_same], h.stackE, h.stackT, h.chain, ?_, h.counters, h.norecon, h.cpr, h.outs, h.nofix, h.diffs⟩
+    refine ⟨h.wf, h.pos, by simp [TW.setNode, hn, upd_same], h.stackE, h.stackT, h.chain, ?_, h.counters, h.recon.cast H rfl rfl rfl rfl rfl, h.cpr, h.outs, h.nofix, h.diffs⟩
     intro sp hsp; rw [hstk] at hsp; cases hsp
   · have hne := sim_pos_ne (w := w) hd
     have hroot : ¬ w.position.isRoot = true := by
@@ -99,11 +99,15 @@ theorem sim_writeHere {w : Walker Node} {a : TW Node} (h : Sim H ps w a) (n : No
 /-- one visitor call -/
 theorem sim_visit (hs : H.Sound) (hfresh : ∀ P, (ps.fresh P).length = 126) (sd : Nat) {w : Walker Node} {a : TW Node}
     (h : Sim H ps w a) (c : WriteNode Node VH)
-    (hsafe : VisitSafe (6 * k0 w.parentPage) w.parentPage.isNone a c) :
+    (hsafe : VisitSafe (6 * k0 w.parentPage) w.parentPage.isNone a c)
+    (Lfin : List (PageId × Store Node))
+    (hfin : w.reconstruction = true → SmallBy H ps Lfin ∧
+      (a.visit H (cfgOf H ps w.parentPage) sd c).log <+: Lfin) :
     ∃ w', w.visit H ps sd c = .ok w' ∧ Sim H ps w' (a.visit H (cfgOf H ps w.parentPage) sd c) ∧ Same w w' ∧
       w'.childPageRoots = w.childPageRoots := by
   have hnone : ∀ {P : Prop}, (P ∧ w.parentPage.isNone = true) → (P ∧ w.parentPage = none) :=
     fun hp => ⟨hp.1, Option.isNone_iff_eq_none.mp hp.2⟩
+  unfold TW.visit at hfin
   unfold Walker.visit TW.visit
   cases c with
   | terminator =>
@@ -171,11 +175,12 @@ theorem sim_visit (hs : H.Sound) (hfresh : ∀ P, (ps.fresh P).length = 126) (sd
     obtain ⟨hd, hup⟩ := hsafe
     have hne := sim_pos_ne (w := w) hd
     simp only [Walker.zeroSibling, Walker.visitMove, WriteNode.up, WriteNode.down, WriteNode.node, tw_descend_eq, TW.down]
+      at hfin ⊢
     rw [sim_peekLastBit H ps h hne]
     simp only
     -- the optional zeroing of the sibling
     generalize (if a.pos.getLast?.getD false = true then decide (H.kind l = .terminator)
-          else decide (H.kind r = .terminator)) = z
+          else decide (H.kind r = .terminator)) = z at hfin ⊢
     have hz : ∃ w1, (if z = true then w.setSibling H.term else .ok w) = .ok w1 ∧
         Sim H ps w1 (if z = true then a.setSibling H.term else a) ∧ Same w w1 ∧
         w1.childPageRoots = w.childPageRoots := by
@@ -192,7 +197,11 @@ theorem sim_visit (hs : H.Sound) (hfresh : ∀ P, (ps.fresh P).length = 126) (sd
     simp only
     have hpos1 : (if z = true then a.setSibling H.term else a).pos = a.pos := by
       cases z <;> rfl
-    obtain ⟨w2, hw2, hs2, hsame2, hcpr2, _⟩ := sim_up H ps hs1 (by rw [hsame1.1, hpos1]; exact hd)
+    obtain ⟨w2, hw2, hs2, hsame2, hcpr2, _⟩ := sim_up H ps hs1 (by rw [hsame1.1, hpos1]; exact hd) (by
+      intro hr hdip
+      have hr0 : w.reconstruction = true := by rw [← hsame1.2.2.2.2]; exact hr
+      obtain ⟨hsb, hpre⟩ := hfin hr0
+      exact hsb w1 _ hs1 hr hdip hpre)
     rw [hw2]
     simp only
     have hpos2 : ((if z = true then a.setSibling H.term else a).up).pos = a.pos.dropLast := by
